@@ -366,14 +366,14 @@ def check_long_cells(acc, tmp, tier):
         body = ['**kern\t**text', '*clefG2\t*', '=1\t=1'] + [f'4c\t{"漢" * 2400}{r}' for r in range(nrows)] + ['==\t==', '*-\t*-']
         pad = None
         for k in range(0, 8):
-            b = ('!!!PAD: ' + 'x' * k + '\n' + '\n'.join(body) + '\n').encode('utf-8')
+            b = ('!!!PAD: p' + 'x' * k + '\n' + '\n'.join(body) + '\n').encode('utf-8')
             if len(b) > boundary and b[boundary] & 0xC0 == 0x80:
                 pad = k
                 break
         if pad is None:
             acc.caps.append(f'long cells: no padding puts byte {boundary} inside a character')
             continue
-        text = '!!!PAD: ' + 'x' * pad + '\n' + '\n'.join(body) + '\n'
+        text = '!!!PAD: p' + 'x' * pad + '\n' + '\n'.join(body) + '\n'
         case = {'doc': f'long-cells-{boundary}', 'text': f'({nrows} rows with a lyric cell of 2 400 three-byte characters, padded by {pad})', 'long_cells': tier, 'flavour': 'non-ascii-long'}
         p = os.path.join(tmp, 'in', f'longcells{boundary}.krn')
         os.makedirs(os.path.dirname(p), exist_ok=True)
